@@ -601,11 +601,9 @@ def text_fd_to_metric_families(fd):
             if sample.name not in allowed_names and not is_nh:
                 if name is not None:
                     yield build_metric(name, documentation, typ, unit, samples)
-                # Start an unknown metric.
-                candidate_name, quoted = _unquote_unescape(sample.name)
-                if not quoted and not _is_valid_legacy_metric_name(candidate_name):
-                    raise ValueError
-                name = candidate_name
+                # Start an unknown metric.  sample.name is already unquoted and unescaped (a bare name was
+                # validated by _parse_sample), so it names the family as it is.
+                name = sample.name
                 documentation = None
                 unit = None
                 typ = 'unknown'
